@@ -12,10 +12,14 @@ for sid in sorted(os.listdir(os.path.join(V, "seeded"))):
     rows.append(f"| `{sid}` | {m['property']} | {first} | {det.replace('|', '/')} |")
 n = len(rows)
 missed = sum(1 for r in rows if "MISSED" in r)
+cross = sum(1 for r in rows if "not detected by the check of this property" in r)
 txt = (f"{n} seeded changes, each written by a fresh sub-agent that saw only the property text and a scratch worktree, each confirmed "
        f"(`tools/seeded.py confirm`: the patch applies, its demonstration fails with and passes without the change, the repository's 1096 stable tests still pass). "
-       f"{n - missed} were detected by the owning check as it stood; {missed} were first missed and led to the strengthening named in the last column, after which all {n} are "
-       f"detected (`tools/seeded_all.py` re-runs every change against its own property's check on scratch copies of the current tree - /repo is never modified; the result of the last complete run, 136 of 136 detected, is `seeded_last_run.json`).\n\n"
+       f"{n - missed - cross} were detected by the owning check as it stood; {missed} were first missed and led to the strengthening named in the last column; "
+       f"{cross} (round 6) are not detected by the check of the property they were written for but by the check of the property whose statement they contradict "
+       f"(named in the last column, reasons in 12.12) or, where the column says so, by none. "
+       f"`tools/seeded_all.py` re-runs every change against the checks named in its meta.json on scratch copies of the current tree - /repo is never modified; the "
+       f"result of the last complete run over the first five rounds, 136 of 136 detected, is `seeded_last_run.json`; the round-6 runs are recorded per change in meta.json.\n\n"
        "| seeded change | property | what it is (first line of the author's note) | detected by |\n|---|---|---|---|\n" + "\n".join(rows) + "\n")
 p = os.path.join(V, "DESIGN.md")
 s = open(p).read()
